@@ -11,9 +11,24 @@ class NS:
         self.__dict__.update(kw)
 
 
+class _Time:
+    def __init__(self, k):
+        self.k = k
+
+    def __add__(self, dt):
+        return _Time(self.k + 1)
+
+    def convertToJulianDate(self, jd_start):
+        return ("JDEPOCH", self.k)
+
+
 class Clock:
     def __init__(self, log, dt):
-        self.log, self.k, self.dt_step = log, 0, dt
+        self.log, self.k, self.dt_step, self.julian_date_start = log, 0, dt, "JDSTART"
+
+    @property
+    def time(self):
+        return _Time(self.k)
 
     def ticToc(self):
         self.k += 1
